@@ -162,12 +162,15 @@ KNOWN = {"If", "IfDef", "IfNDef", "ElIf", "Else", "Endif", "<plain>", "<unparsab
 
 # ------------------------------------------------------------------------------------------------ PARSE
 def parse_table(P, rep):
+    return parse_table_for(P, rep, ["If", "ElIf", "IfDef", "IfNDef", "Else", "Endif"])
+
+
+def parse_table_for(P, rep, want):
     """-> {(directive, cond True/False/None): (mode | 'Err', evaluates_condition)}"""
     fn = "directive::Directive::parse"
     dv = dvariants(P)
     mv = modes(P)
     inv = {n: d for d, n in dv.items()}
-    want = ["If", "ElIf", "IfDef", "IfNDef", "Else", "Endif"]
     M = absint.Machine(P, max_depth=4, opaque={"expr::Expr::run", "parser::parse_file_internal"})
     body = P.body[fn]
     args = M.arg_unknowns(fn)
